@@ -204,3 +204,17 @@ Print Assumptions C12_impl_ok.
 Print Assumptions C12_drop_channel_any_order.
 Print Assumptions C12_wipe_any_order.
 Print Assumptions C12_example_std.
+
+(* generated-code tie, stage 3: package state's nick mode parser.  Gen/GoFuncs.v holds the Gallina
+   TRANSLATION of the Go body of nick.parseModes (state/nick.go; nk.modes as an option of the tuple
+   of the six booleans Bot, Invisible, Oper, WallOps, HiddenHost, SSL; the index loop with explicit
+   fuel); it is equal to nick_parse_modes started with modeop = false — for every mode string, and
+   it never panics on a non-nil nk.modes (Proofs/GenEqModes.v).  channel.parseModes is NOT covered:
+   it updates privileges through ch.lookup[arg] / ch.nicks[nk] (maps of pointers), which the value
+   translation does not model. *)
+From Verif Require GoFuncs GenEqModes.
+Theorem gen_C12_nick_parseModes : forall modes nm,
+  GoFuncs.go_state_nick_parseModes (Some (GenEqModes.nm_tuple nm)) modes
+  = GoBytes.Ok (Some (GenEqModes.nm_tuple (nick_parse_modes modes false nm))).
+Proof. exact GenEqModes.go_nick_parseModes_eq. Qed.
+Print Assumptions gen_C12_nick_parseModes.
